@@ -8,13 +8,13 @@ CHECKS = {
  "C01": ("5.1", "Generated source models (typed expression grammar) compiled by rooc and judged at exact rational test points: source-feasible iff extendable over the auxiliaries, decided by an exact DFS + bound-propagation + Fourier-Motzkin oracle. Finds defects in rule interplay that hand-written matrices miss; never proves absence.",
          "Trusted: the harness's own rational oracle (self-tested against enumeration at start-up) and reference evaluator; rows are re-checked with a 1e-9 relative slack before a cut-off is reported; test points are a finite sample of each model's assignments.",
          "property-based testing: generated models + exact rational extension oracle (metamorphic src<=>lin)"),
- "C02": ("5.2", "Same generated models with min/max objectives: at every source-feasible test point the best linear objective over all auxiliary extensions (exact optimisation) must equal the source objective.",
+ "C02": ("5.2", "Same generated models with min/max objectives: at every source-feasible test point (incl. every corner of the declared box) an extension must exist and the best linear objective over all auxiliary extensions (exact optimisation) must equal the source objective; directed objectives for pruned min/max operands, tiny factors and quotients under non-distributing operators.",
          "Trusted: exact oracle and reference evaluator; 1e-6 relative comparison; finite sample of points per model.",
          "property-based testing: generated models + exact optimisation over auxiliaries vs reference evaluator"),
  "C03": ("5.3", "Whole source texts printed from generated typed models with random spelling are solved through the one-shot entry point; the answer is judged by the harness's exact interpreter: exhaustive enumeration for all-discrete models (both directions), certificate + sampled comparison for models with reals.",
          "Trusted: reference interpreter and printer (written from the documentation, cross-checked by C09's reference parser); 1e-6 tolerance on solver arithmetic; for reals the 'no better assignment' direction is decided on a finite test set.",
          "property-based testing: generated programs + exact reference interpreter / exhaustive enumeration"),
- "C04": ("5.4", "Generated linear/MILP models through the public LinearModel API, every built-in solver entry point run, every returned solution re-checked against the model (certificate check).",
+ "C04": ("5.4", "Generated linear/MILP models through the public LinearModel API, every built-in solver entry point run (the MILP one also under a zero time limit and deterministic node limits), every returned solution re-checked against the model (certificate check).",
          "Trusted: f64 re-evaluation of rows with the 1e-6 scaled tolerance; solver calls that never return are observed through a helper thread with a 5 s budget.",
          "property-based testing: generated linear models + solution certificate checking"),
  "C05": ("5.5", "Generated small exactly-decidable linear/MILP models; every solver's verdict and optimal value compared with an exact rational simplex / branch-and-bound oracle.",
@@ -35,23 +35,23 @@ CHECKS = {
  "C13": ("5.13", "Generated continuous models converted to standard form (read through guarded accessors); exact rational oracle checks non-negative right-hand sides, forward and backward correspondence of feasible points with equal objective, equal verdict and optimum.",
          "Trusted: exact LP oracle; the variable correspondence is by name (v, or $pv - $mv), no row/column layout is assumed.",
          "property-based testing: generated models + exact rational feasibility correspondence"),
- "C14": ("5.14", "Generated small models (degenerate vertices, ties, redundant rows, two-phase starts) and the classical cycling instances are stepped pivot by pivot; after every step the invariants (equivalent system, unit basis columns, non-negative basic solution satisfying the initial equalities, monotone objective, consistent current value) are checked, the stop verdict is compared with the exact optimum of the original model, the driver must stay within its limit.",
+ "C14": ("5.14", "Generated small models (degenerate vertices, ties, redundant rows, two-phase starts, a fully degenerate class, a class with one badly scaled column) and the classical cycling instances are stepped pivot by pivot; after every step the invariants (equivalent system, unit basis columns, non-negative basic solution satisfying the initial equalities, monotone objective, consistent current value) are checked, the stop verdict is compared with the exact optimum of the original model, the driver must stay within its limit.",
          "Trusted: f64 invariant checks with 1e-6/1e-7 tolerances; stop verdicts are judged against the exact optimum of the original model (the canonical tableau carries f64 noise); covers the pivot sequences the implementation produces.",
          "property-based testing: invariant checking over generated pivot histories + exact oracle at the stop"),
- "C15": ("5.15", "Generated MILPs (small general ones and 15-28 item knapsacks) crossed with time limits, MIP gaps (valid and invalid) and deterministic node limits through the guarded hook, via the function and the builder: every returned solution must be feasible and self-consistent, Optimal only within the gap of the exact optimum (rational B&B / dynamic programming), invalid options rejected.",
+ "C15": ("5.15", "Generated MILPs (small general ones, 15-28 item knapsacks, knapsacks rescaled to 1e4 / 1e6 / 1e-2 / 1e-3 objective magnitudes, near-tied "pick k of n" selections) crossed with time limits, MIP gaps (valid and invalid) and deterministic node limits through the guarded hook, via the function and the builder: every returned solution must be feasible and self-consistent, Optimal only within the gap of the exact optimum (rational B&B / dynamic programming), invalid options rejected.",
          "Trusted: exact optimum oracles; the oracle does not depend on where the clock stopped the search, so timing only affects which runs are interrupted.",
          "property-based testing: generated models x option settings + exact optimum oracle + certificate check"),
- "C17": ("5.17", "Generated linear models (all domain kinds, tiny/large/negative-zero numbers, offsets, named/unnamed rows incl. names equal to generated ones) exported with to_lp_format() and read back by an independent CPLEX-LP reader; everything is compared field by field with exact f64 equality.",
+ "C17": ("5.17", "Generated linear models (all domain kinds, tiny/large (up to 1e30, beyond the 64-bit integers)/negative-zero numbers, offsets, named/unnamed rows incl. names equal to generated ones) exported with to_lp_format() and read back by an independent CPLEX-LP reader; everything is compared field by field with exact f64 equality.",
          "Trusted: the harness's LP reader, written from the format description.",
          "property-based testing: round trip through an independent LP-format reader"),
- "C20": ("5.20", "Generated small LPs kept when the exact oracle certifies the optimal value differentiable in every right-hand side; Clarabel's shadow prices (function and builder doors) must equal the exact slopes obtained by re-solving with perturbed right-hand sides.",
-         "Trusted: exact LP oracle for the slopes; 1e-5 relative tolerance on the interior-point duals; degenerate cases are skipped and counted.",
+ "C20": ("5.20", "Generated small LPs (half of them with the objective or one row rescaled by a power of two) kept when the exact oracle certifies the optimal value differentiable in every right-hand side; Clarabel's shadow prices (function and builder doors) must equal the exact slopes obtained by re-solving with perturbed right-hand sides.",
+         "Trusted: exact LP oracle for the slopes; 1e-5 tolerance on the interior-point duals relative to the larger of the slope and the unit objective / row; degenerate cases are skipped and counted.",
          "property-based testing: generated LPs + exact perturbation (metamorphic) oracle"),
  "C16": ("5.16", "One generated model realised through ModelBuilder (operators, helpers, permuted call order, unused variable), source text (constants inline / where / API), PipeRunner and RoocSolver: linear models identical, verdicts and optimal values equal, builder read-back (var_value, numeric_value, eval, value) equals the reference semantics; the builder expression is assembled through the most specific operator overload for every operand shape (Var / Expr / f64 / i32 / bool on either side, by value or reference); the constraint!/expr! macros are covered by a generated table of all 590 operator sequences of up to 3 operators compared with the reference parser.",
          "Trusted: reference evaluator and parser; macros are covered by enumeration at build time, not by run-time generation.",
          "property-based testing: differential between entry points + enumerated macro table"),
- "C07": ("5.7", "Generated models (incl. propagation chains, cycles exhausting the step limit, contradictions, inexact coefficients); derived and published ranges must contain every source-feasible test point, derived enclosures must contain exact expression values at box points.",
-         "Trusted: reference evaluator; hook verif_hooks::analyze_bounds is a read-only wrapper; containment uses a 1e-9 relative allowance (stated weakening).",
+ "C07": ("5.7", "Generated models (incl. propagation chains, cycles exhausting the step limit, contradictions, inexact coefficients, coefficients from 1e-9 to 1e9, strict rows); derived and published ranges must contain every source-feasible test point, derived enclosures must contain exact expression values at box points.",
+         "Trusted: reference evaluator; hook verif_hooks::analyze_bounds is a read-only wrapper; containment uses a 1e-11 relative allowance (stated weakening: rooc folds constants in rounded f64 before the analysis).",
          "property-based testing: generated models + exact evaluation against derived intervals (via read-only hook)"),
  "C08": ("5.8", "Generated models with edge features (aux-like names, duplicate / suffix-like constraint names, infinite constants, unused declarations); every compiled model checked against the well-formedness invariant list, MissingFiniteBounds errors checked for content, and a non-finite-number rejection of a source without infinite constants counted as a missing bound turned into a constant.",
          "Trusted: invariant checker written from the property text; guessed big-M constants are caught by C01's far test points (2^21, 2^34).",
